@@ -94,7 +94,11 @@ fn credentials_part(rep: &Arc<Reporter>, args: &Args, hosts: &TlsHostsSettings) 
             for as_user in [true, false] {
                 n += 1;
                 let (u_spelled, p_spelled, u, p) = if as_user { (spelled.clone(), "\"plain-pass\"".to_string(), s.clone(), "plain-pass".to_string()) } else { ("\"plain-user\"".to_string(), spelled.clone(), "plain-user".to_string(), s.clone()) };
-                let content = format!("# credentials\n[[client]]\nusername = {}\npassword = {}\n\n[[client]]\nusername = \"second\"\npassword = \"second-pass\" # comment\n", u_spelled, p_spelled);
+                let mut content = format!("# credentials\n[[client]]\nusername = {}\npassword = {}\n\n[[client]]\nusername = \"second\"\npassword = \"second-pass\" # comment\n", u_spelled, p_spelled);
+                // every fourth file has a further entry for the same user name with another password (a password being rotated):
+                // both pairs are written, both are to be accepted
+                let rotated = i % 4 == 1;
+                if rotated { content.push_str(&format!("\n[[client]]\nusername = {}\npassword = \"rotated-pass\"\n", u_spelled)); }
                 let Some(reference) = reference_clients(&content) else { rep.tally("generator produced a file the reference reader rejects (skipped)", 1); continue; };
                 if reference[0] != (u.clone(), p.clone()) { rep.tally("generator spelling does not round-trip in the reference reader (skipped)", 1); continue; }
                 let path = dir.join(format!("cred-{}.toml", n % 64));
@@ -124,6 +128,10 @@ fn credentials_part(rep: &Arc<Reporter>, args: &Args, hosts: &TlsHostsSettings) 
                 let token = crate::kit::basic(&u, &p);
                 if auth.authenticate(&Source::ProxyBasic(token.into()), &trusttunnel::log_utils::IdChain::empty()) != Status::Pass {
                     rep.violation("authenticator rejects the pair written in the credentials file", witness(""));
+                    continue;
+                }
+                if rotated && auth.authenticate(&Source::ProxyBasic(crate::kit::basic(&u, "rotated-pass").into()), &trusttunnel::log_utils::IdChain::empty()) != Status::Pass {
+                    rep.violation("authenticator rejects a pair written in the credentials file (second entry for the same user name)", witness(""));
                     continue;
                 }
                 // exported client configuration carries the same pair
